@@ -81,8 +81,27 @@ def emit(node, rng, mode='required', max_rep=1, depth=0, path=()):
                 n = rng.randint(1, max_rep if mx == -1 else min(mx, max_rep))
             for r in range(n):
                 sub = emit(c, rng, mode, max_rep, depth + 1, path + ((c.name, r),))
+                if not sub and mn >= 1:
+                    # a required group whose members are all optional: ER7 cannot express an empty group, so a
+                    # conforming instance holds at least its first member
+                    sub = _first_member(c, path + ((c.name, r),))
                 out.extend(sub)
     return out
+
+
+def _first_member(group, path):
+    for c in group.children:
+        if c.card[1] == 0:
+            continue
+        if c.kind == 'SEG':
+            return [Line(c.name, path)]
+        # entering a group makes its own required members necessary
+        sub = emit(c, None, 'required', 1, 0, path + ((c.name, 0),))
+        if not sub:
+            sub = _first_member(c, path + ((c.name, 0),))
+        if sub:
+            return sub
+    return []
 
 
 def _first_emitted(node, mode):
@@ -187,3 +206,20 @@ def conforming_segment_line(version, seg, mode='required', set_id=None):
                 break
     top = max(vals) if vals else 0
     return '|'.join([seg] + [vals.get(i, '') for i in range(1, top + 1)])
+
+
+def conforming_msh(version, name, ctrl='1'):
+    """MSH line naming structure `name` whose required fields hold conforming values (standard delimiters)"""
+    rows = tables.segments(version)['MSH']
+    vals = {}
+    for r in rows:
+        if r.num in (1, 2) or r.card[1] == 0 or not r.ok:
+            continue
+        if r.card[0] >= 1:
+            vals[r.num] = field_required_text(version, r)
+    vals[9] = msh9_for(version, name) or 'ZZZ^Z01'
+    vals[12] = version
+    vals.setdefault(10, ctrl)
+    vals.setdefault(7, field_required_text(version, [r for r in rows if r.num == 7][0]))
+    top = max(vals)
+    return 'MSH|^~\\&|' + '|'.join(vals.get(i, '') for i in range(3, top + 1))
